@@ -276,6 +276,18 @@ class LineBreak(SpanToken):
         self.content = match.group(1)
         self.soft = not self.content.startswith(('  ', '\\'))
 
+    @classmethod
+    def find(cls, string):
+        matches = []
+        for match in cls.pattern.finditer(string):
+            if match.group(1) == '\\':
+                # an escaped backslash makes no hard line break
+                before = string[:match.start()]
+                if (len(before) - len(before.rstrip('\\'))) % 2:
+                    match = cls.pattern.match(string, match.end() - 1)
+            matches.append(match)
+        return matches
+
 
 class RawText(SpanToken):
     """
